@@ -365,6 +365,23 @@ def check_reader(chk) -> None:
     chk.expect(sorted(opt) == ["altLoc", "charge", "element", "iCode"] and all(v.startswith("None if not ") for v in opt.values()), "null-agreement", fi.where, "blank optional PDB fields (altLoc, iCode, element, charge) read as None", "blank optional PDB fields are not read as None", K(fi, "blank-none"), found=opt)
 
 
+def check_splitter(chk) -> None:
+    """splitter.main (observe point): every model goes through fit_to_pdb -> write_pdb, or write_cif, with the input's format tag."""
+    repo = chk.repo
+    fi = repo.func("splitter", "main")
+    chk.note_function(fi)
+    loops = [l for l in ast.walk(fi.node) if isinstance(l, ast.For) and norm(l.iter) == "grouped_by_model"]
+    gb = astq.first_assign(fi.node, "grouped_by_model")
+    ok = len(loops) == 1 and gb is not None and norm(gb) == "atoms_df.groupby(model_column)"
+    if ok:
+        t = norm(loops[0])
+        ok = "model_df.attrs['format'] = input_format" in t and "df_to_write = fit_to_pdb(model_df)" in t and "write_pdb(df_to_write, output_path)" in t and "write_cif(model_df, output_path)" in t
+        br = [s for s in ast.walk(loops[0]) if isinstance(s, ast.If) and norm(s.test) == "output_format == 'PDB'"]
+        ok = ok and any(flat(b.body) == flat("df_to_write = fit_to_pdb(model_df)write_pdb(df_to_write, output_path)") or [flat(x) for x in b.body] == [flat("df_to_write = fit_to_pdb(model_df)"), flat("write_pdb(df_to_write, output_path)")] for b in br)
+    mc = {norm(s.value) for s in ast.walk(fi.node) if isinstance(s, ast.Assign) and norm(s.targets[0]) == "model_column"}
+    chk.expect(ok and mc == {"'pdbx_PDB_model_num'", "'model'"}, "splitter-wiring", fi.where, "each model (grouped by the format's model column) is tagged with the input format, fitted and written as PDB, or written as mmCIF", "splitter no longer writes every model through fit_to_pdb -> write_pdb / write_cif with the input's format tag", K(fi, "wiring"))
+
+
 def run(chk) -> None:
     chk.explanation = (
         "Static rules on parser_v2.py: widths of the PDB line formatter (format specs, ljust/rjust, literal gaps) give a column layout that is compared field by field with the reader's slices "
@@ -379,6 +396,7 @@ def run(chk) -> None:
     check_record_order(chk)
     check_field_maps(chk)
     check_reader(chk)
+    check_splitter(chk)
     for rule, n in (("writer-layout", 17), ("writer-reader-columns", 15), ("ter-line", 5), ("record-order", 6), ("field-map-pdb-to-cif", 2), ("field-map-cif-to-pdb", 1), ("value-domain", 1)):
         chk.floor(rule, n)
 
